@@ -1235,6 +1235,127 @@ def r5(ctx):
     ctx.require(n_emit >= 4, f"only {n_emit} callers of persistence._save_obj/_delete_obj in unitofwork.py")
 
 
+# ---------------------------------------------------------------------- C31-R6 (the edges are registered at all)
+def _attr_calls(node, attr: str) -> List[ast.Call]:
+    return [c for c in calls_in(node) if isinstance(c.func, ast.Attribute) and c.func.attr == attr]
+
+
+@R.rule("C31-R6", floor=3, template="T-GUARD/T-PATH",
+        desc="the ordering edges and ProcessAll actions of a relationship (per_property_flush_actions) are registered on the "
+             "first presort pass whose batch of states has changes on it, whichever pass that is: _Preprocess.execute, "
+             "evaluated with its set-up latch unset, reaches per_property_flush_actions() whenever prop_has_changes() holds "
+             "for the deleted (isdelete=True) or for the saved (isdelete=False) states of the batch, and the latch that "
+             "suppresses the test on later passes (states added by cascades arrive in later passes) is only set on a pass "
+             "that performs the set-up")
+def r6(ctx):
+    from ..cfg import no_exc
+    f = inline_helpers(ctx, ctx.func(f"{UOW}::_Preprocess.execute"))   # set-up extracted into a private method is read in place
+    g = ctx.cfg(f.node)
+    pm = parent_map(f.node)
+    b = bindings(f.node)
+    base = ctx.func(f"{DEP}::_DependencyProcessor.prop_has_changes")
+    ctx.require(len(base.params) == 4, "prop_has_changes(self, uow, states, isdelete) changed its signature")
+    p_states, p_flag = base.params[2], base.params[3]
+    setup_calls = _attr_calls(f.node, "per_property_flush_actions")
+    ctx.require(setup_calls, "_Preprocess.execute never calls per_property_flush_actions()")
+    setup_nodes = sorted({n for c in setup_calls for n in g.nodes_containing(c)})
+    # the two batches, named by what the processor is told about them
+    batch: Dict[str, str] = {}
+    for kind, meth in (("delete", "presort_deletes"), ("save", "presort_saves")):
+        cs = _attr_calls(f.node, meth)
+        ctx.require(len(cs) == 1 and len(cs[0].args) == 2 and isinstance(cs[0].args[1], ast.Name),
+                    f"_Preprocess.execute does not hand one local set of states to {meth}()")
+        batch[kind] = cs[0].args[1].id
+    ctx.require(batch["delete"] != batch["save"], "presort_deletes and presort_saves receive the same set")
+
+    def which_batch(e) -> Optional[str]:
+        e = e if isinstance(e, ast.Name) and e.id in batch.values() else resolve_alias(f.node, e, b)
+        if isinstance(e, ast.Name):
+            for kind, nm in batch.items():
+                if e.id == nm:
+                    return kind
+        return None
+
+    # latch: attributes of self that the function itself stores and that are read by a branch outcome dominating the set-up
+    stored = {}
+    for n in g.nodes:
+        st = n.stmt
+        if n.kind == "stmt" and isinstance(st, ast.Assign):
+            for t in st.targets:
+                if isinstance(t, ast.Attribute) and dotted(t.value) == "self":
+                    stored.setdefault(t.attr, []).append((n.id, st))
+    latches = set()
+    for c in setup_calls:
+        st = c
+        while st is not None and not isinstance(st, ast.stmt):
+            st = pm.get(st)
+        for t, pol in dominating_guards(g, pm, f.node, c, st):
+            for x in ast.walk(expand_test(ctx, f, t, b)):
+                if isinstance(x, ast.Attribute) and dotted(x.value) == "self" and x.attr in stored:
+                    latches.add(x.attr)
+
+    def val_of(e, A):
+        if isinstance(e, ast.Attribute) and dotted(e.value) == "self" and e.attr in latches:
+            return False   # not yet set up
+        if isinstance(e, ast.Call) and isinstance(e.func, ast.Attribute) and e.func.attr == "prop_has_changes":
+            m = bind_args(e, base)
+            if m is None or p_states not in m or p_flag not in m:
+                return None
+            kind = which_batch(m[p_states])
+            flag = resolve_alias(f.node, m[p_flag], b)
+            if kind is not None and isinstance(flag, ast.Constant) and flag.value is (kind == "delete"):
+                return A.get(kind)
+            return None
+        kind = which_batch(e) if isinstance(e, ast.Name) else None
+        if kind is not None:
+            return True if A.get(kind) else None   # a batch with changes is not empty
+        return None
+
+    def edge_ok(A):
+        def ok(a, b_, lab):
+            if not no_exc(a, b_, lab):
+                return False
+            n = g.nodes[a]
+            if n.kind == "test" and lab in ("true", "false") and isinstance(n.stmt, (ast.If, ast.While)):
+                v = _tv(expand_test(ctx, f, n.stmt.test, b), lambda e: val_of(e, A))
+                if v is not None and v != (lab == "true"):
+                    return False
+            return True
+        return ok
+
+    for kind in ("delete", "save"):
+        flag = kind == "delete"
+        w = g.must_pass([g.entry], [g.exit], setup_nodes, edge_ok=edge_ok({kind: True}))
+        ctx.check(w is None, f"{f.key}:set-up-when-changes[{kind}]",
+                  f"a presort pass in which prop_has_changes(uow, <{kind} batch `{batch[kind]}`>, {flag}) holds and the flush actions "
+                  f"were not set up before can end without per_property_flush_actions(): the relationship's ProcessAll actions and "
+                  f"its ordering edges between the two mappers are never registered, so the {kind}s of this flush are emitted "
+                  f"without the foreign-key synchronisation / in an order the constraint rejects",
+                  f"prop_has_changes(.., {batch[kind]}, {flag}) and latch unset -> per_property_flush_actions() on every path", f.loc, w)
+    if not latches:
+        ctx.ok(f"{f.key}:set-up-latch", "no latch: the set-up (idempotent) is repeated on every pass that has changes", nontrivial=False)
+    for L in sorted(latches):
+        bad = None
+        n_sets = 0
+        for nid, st in stored[L]:
+            v = resolve_alias(f.node, st.value, b)
+            ctx.require(isinstance(v, ast.Constant), f"_Preprocess.execute stores a computed value `{unparse(st.value)}` into the latch self.{L}")
+            if not v.value:
+                continue
+            n_sets += 1
+            if g.always_preceded(nid, setup_nodes, edge_ok=no_exc) is None:
+                continue
+            w = g.must_pass([nid], [g.exit], setup_nodes, edge_ok=no_exc)
+            if w is not None:
+                bad = bad or w
+        ctx.check(bad is None, f"{f.key}:set-up-latch[{L}]",
+                  f"`self.{L}` -- the latch that switches the has-changes test off for all later presort passes -- can be set on a pass "
+                  f"that does not call per_property_flush_actions(): when the first batch of states has no changes on the relationship, "
+                  f"states that enter the flush on a later pass (flush-time cascades such as delete-orphan) never get the relationship's "
+                  f"ProcessAll actions and ordering edges; their rows are written without the FK synchronisation / before the rows "
+                  f"they depend on", f"{n_sets} store(s), each on a path that performs the set-up", f.loc, bad)
+
+
 # ---------------------------------------------------------------------- self-test battery
 O2M_PLAIN_OLD = "                    (child_deletes, parent_deletes),\n                    (before_delete, child_saves),\n"
 R.mutant("o2m-reverse-child-deletes-parent-deletes", DEP,
@@ -1451,3 +1572,88 @@ R.mutant("postupdate-filter-by-loop-inverted", UOW,
 R.mutant("benign-postupdate-emit-in-private-helper", UOW,
          chain(sub("        persistence._post_update(self.mapper, states, uow, cols)\n", "        self._emit(persistence, states, uow, cols)\n"),
                sub("class _SaveUpdateAll(_PostSortRec):\n", "    def _emit(self, persistence, states, uow, cols):\n        persistence._post_update(self.mapper, states, uow, cols)\n\n\nclass _SaveUpdateAll(_PostSortRec):\n")), None)
+
+# ------------------------------------------------------------------ str2-m (round-2 seeds): C31-R2 m2m per-object branches, C31-R6
+_M2M_PS_OLD = (
+    "        if not isdelete:\n"
+    "            if childisdelete:\n"
+    "                uow.dependencies.update(\n                    [(save_parent, after_save), (after_save, child_action)]\n                )\n"
+    "            else:\n"
+    "                uow.dependencies.update(\n                    [(save_parent, after_save), (child_action, after_save)]\n                )\n"
+)
+R.mutant("seed3-m2m-perstate-branches-collapsed-into-save-form", DEP,
+         sub(_M2M_PS_OLD, "        if not isdelete:\n            uow.dependencies.update(\n                [(save_parent, after_save), (child_action, after_save)]\n            )\n"), "C31-R2")
+R.mutant("benign-m2m-perstate-common-edge-hoisted", DEP,
+         sub(_M2M_PS_OLD, "        if not isdelete:\n            uow.dependencies.add((save_parent, after_save))\n"
+                          "            if childisdelete:\n                uow.dependencies.add((after_save, child_action))\n"
+                          "            else:\n                uow.dependencies.add((child_action, after_save))\n"), None)
+R.mutant("m2m-perstate-common-edge-hoisted-child-edge-only-when-saved", DEP,
+         sub(_M2M_PS_OLD, "        if not isdelete:\n            uow.dependencies.add((save_parent, after_save))\n"
+                          "            if not childisdelete:\n                uow.dependencies.add((child_action, after_save))\n"), "C31-R2")
+R.mutant("benign-m2m-perstate-child-edge-chosen-by-local", DEP,
+         sub(_M2M_PS_OLD, "        if not isdelete:\n"
+                          "            if childisdelete:\n                child_edge = (after_save, child_action)\n"
+                          "            else:\n                child_edge = (child_action, after_save)\n"
+                          "            uow.dependencies.update([(save_parent, after_save), child_edge])\n"), None)
+
+_PRE_SETUP_OLD = (
+    "            if not self.setup_flush_actions and (\n"
+    "                self.dependency_processor.prop_has_changes(\n                    uow, delete_states, True\n                )\n"
+    "                or self.dependency_processor.prop_has_changes(\n                    uow, save_states, False\n                )\n"
+    "            ):\n"
+    "                self.dependency_processor.per_property_flush_actions(uow)\n"
+    "                self.setup_flush_actions = True\n"
+    "            return True\n"
+)
+_HC_D = "self.dependency_processor.prop_has_changes(uow, delete_states, True)"
+_HC_S = "self.dependency_processor.prop_has_changes(uow, save_states, False)"
+R.mutant("seed4-preprocess-latch-set-before-has-changes-test", UOW,
+         sub(_PRE_SETUP_OLD, "            if not self.setup_flush_actions:\n                self.setup_flush_actions = True\n"
+                             f"                if {_HC_D} or {_HC_S}:\n"
+                             "                    self.dependency_processor.per_property_flush_actions(uow)\n            return True\n"), "C31-R6")
+R.mutant("preprocess-latch-set-before-test-guard-clauses", UOW,
+         sub(_PRE_SETUP_OLD, "            if self.setup_flush_actions:\n                return True\n            self.setup_flush_actions = True\n"
+                             f"            if not ({_HC_D} or {_HC_S}):\n                return True\n"
+                             "            self.dependency_processor.per_property_flush_actions(uow)\n            return True\n"), "C31-R6")
+R.mutant("preprocess-deleted-batch-not-tested", UOW,
+         sub(_PRE_SETUP_OLD, f"            if not self.setup_flush_actions and {_HC_S}:\n"
+                             "                self.dependency_processor.per_property_flush_actions(uow)\n                self.setup_flush_actions = True\n            return True\n"), "C31-R6")
+R.mutant("preprocess-both-batches-must-have-changes", UOW,
+         sub(_PRE_SETUP_OLD, f"            if not self.setup_flush_actions and ({_HC_D} and {_HC_S}):\n"
+                             "                self.dependency_processor.per_property_flush_actions(uow)\n                self.setup_flush_actions = True\n            return True\n"), "C31-R6")
+R.mutant("preprocess-has-changes-flags-swapped", UOW,
+         sub(_PRE_SETUP_OLD, "            if not self.setup_flush_actions and (\n"
+                             "                self.dependency_processor.prop_has_changes(uow, delete_states, False)\n"
+                             "                or self.dependency_processor.prop_has_changes(uow, save_states, True)\n            ):\n"
+                             "                self.dependency_processor.per_property_flush_actions(uow)\n                self.setup_flush_actions = True\n            return True\n"), "C31-R6")
+R.mutant("preprocess-set-up-only-when-latched", UOW,
+         sub("            if not self.setup_flush_actions and (\n                self.dependency_processor.prop_has_changes(\n",
+             "            if self.setup_flush_actions and (\n                self.dependency_processor.prop_has_changes(\n"), "C31-R6")
+R.mutant("benign-preprocess-latch-set-just-before-set-up", UOW,
+         sub("                self.dependency_processor.per_property_flush_actions(uow)\n                self.setup_flush_actions = True\n",
+             "                self.setup_flush_actions = True\n                self.dependency_processor.per_property_flush_actions(uow)\n"), None)
+R.mutant("benign-preprocess-guard-clauses-and-locals", UOW,
+         sub(_PRE_SETUP_OLD, "            if self.setup_flush_actions:\n                return True\n            processor = self.dependency_processor\n"
+                             "            deletes_changed = processor.prop_has_changes(uow, delete_states, True)\n"
+                             "            changed = deletes_changed or processor.prop_has_changes(uow, save_states, isdelete=False)\n"
+                             "            if not changed:\n                return True\n"
+                             "            processor.per_property_flush_actions(uow)\n            self.setup_flush_actions = True\n            return True\n"), None)
+R.mutant("benign-preprocess-set-up-in-helper-method", UOW,
+         chain(sub(_PRE_SETUP_OLD, "            self._set_up_once(uow, delete_states, save_states)\n            return True\n"),
+               sub("class _PostSortRec:\n",
+                   "    def _set_up_once(self, uow, doomed, kept):\n        if self._needs_set_up(uow, doomed, kept):\n"
+                   "            self.dependency_processor.per_property_flush_actions(uow)\n            self.setup_flush_actions = True\n\n"
+                   "    def _needs_set_up(self, uow, doomed, kept):\n"
+                   "        return not self.setup_flush_actions and (\n"
+                   "            self.dependency_processor.prop_has_changes(uow, doomed, True)\n"
+                   "            or self.dependency_processor.prop_has_changes(uow, kept, False)\n        )\n\n\nclass _PostSortRec:\n", count=1)), None)
+R.mutant("preprocess-set-up-in-helper-method-latch-first", UOW,
+         chain(sub(_PRE_SETUP_OLD, "            self._set_up_once(uow, delete_states, save_states)\n            return True\n"),
+               sub("class _PostSortRec:\n",
+                   "    def _set_up_once(self, uow, doomed, kept):\n        if not self.setup_flush_actions:\n            self.setup_flush_actions = True\n"
+                   "            if self.dependency_processor.prop_has_changes(uow, doomed, True) or self.dependency_processor.prop_has_changes(uow, kept, False):\n"
+                   "                self.dependency_processor.per_property_flush_actions(uow)\n\n\nclass _PostSortRec:\n", count=1)), "C31-R6")
+R.mutant("benign-preprocess-inverted-outer-test", UOW,
+         sub("        if delete_states or save_states:\n" + _PRE_SETUP_OLD + "        else:\n            return False\n",
+             "        if not delete_states and not save_states:\n            return False\n"
+             + "\n".join(ln[4:] if ln.startswith("    ") else ln for ln in _PRE_SETUP_OLD.split("\n"))), None)
